@@ -57,4 +57,31 @@ Definition wf_packet (h : pkt_hdr) (af : option bytes) (payload : bytes) : Prop 
   | None => (4 + length payload = 188)%nat
   end.
 
+(* ---- payloads whose pointer_field is k: k bytes (the end of a previous section, or stuffing) precede the section ---- *)
+Definition ser_payload_pf (k : N) (filler : bytes) (s : section) (rest : bytes) : bytes :=
+  k :: filler ++ ser_section s ++ rest.
+(* n four-byte groups read as entries, whatever the bytes are *)
+Fixpoint raw_entries (n : nat) (bs : bytes) : list entry :=
+  match n, bs with
+  | S k, a :: b :: c :: d :: t => mkE (a * 256 + b) ((c mod 32) * 256 + d) (c / 32) :: raw_entries k t
+  | _, _ => []
+  end.
+
+(* ---- executable oracle (used by `spec.pat` of modelexec): the observations the property determines,
+        computed from the logical entry list alone ---- *)
+(* insertion into a strictly increasing key list *)
+Fixpoint ins_key (k : N) (l : list N) : list N :=
+  match l with
+  | [] => [k]
+  | x :: t => if k <? x then k :: l else if k =? x then l else x :: ins_key k t
+  end.
+(* the program numbers that occur, in increasing order, without 0 *)
+Definition prog_keys (es : list entry) : list N :=
+  fold_right (fun e acc => if pn e =? 0 then acc else ins_key (pn e) acc) [] es.
+(* the program map as a list sorted by program_number *)
+Definition spec_map (es : list entry) : list (N * N) :=
+  flat_map (fun k => match map_lookup es k with Some x => [(k, x)] | None => [] end) (prog_keys es).
+Definition spec_num (es : list entry) : N := len es.
+Definition spec_is_pmt (es : list entry) (x : N) : bool := existsb (fun kv => snd kv =? x) (spec_map es).
+
 End PatSpec.
